@@ -719,9 +719,15 @@ class PathSim:
             return [(st, None)]
         if isinstance(t, (ast.Tuple, ast.List)):
             rs = [(st, None)]
+            star = [j for j, x in enumerate(t.elts) if isinstance(x, ast.Starred)]
             for i, e in enumerate(t.elts):
-                if isinstance(sym, (ast.Tuple, ast.List)) and len(sym.elts) == len(t.elts):
+                if isinstance(sym, (ast.Tuple, ast.List)) and len(sym.elts) == len(t.elts) and not star:
                     part = sym.elts[i]
+                elif star and i == star[0]:
+                    hi = -(len(t.elts) - 1 - i)
+                    part = ast.Subscript(value=sym, slice=ast.Slice(lower=ast.Constant(value=i) if i else None, upper=ast.Constant(value=hi) if hi else None, step=None), ctx=ast.Load())
+                elif star and i > star[0]:
+                    part = ast.Subscript(value=sym, slice=ast.Constant(value=-(len(t.elts) - i)), ctx=ast.Load())
                 else:
                     part = ast.Subscript(value=sym, slice=ast.Constant(value=i), ctx=ast.Load())
                 nrs = []
@@ -852,6 +858,9 @@ class PathSim:
             return out
         if isinstance(e, ast.Call):
             return self.ev_call(e, st, frame)
+        if isinstance(e, ast.ListComp) and len(e.generators) == 1 and e.generators[0].ifs and isinstance(e.generators[0].target, ast.Name) \
+                and not e.generators[0].is_async:
+            return self._ev_filtered_comp(e, st, frame)
         if isinstance(e, (ast.Lambda, ast.ListComp, ast.SetComp, ast.DictComp, ast.GeneratorExp)):
             sym = self.subst(e, st, frame)
             # calls inside comprehensions are recorded as (possibly repeated) events
@@ -1194,6 +1203,66 @@ class PathSim:
                 out.extend(self._decide(sym, e, s, frame))
         return out
 
+    def _ev_filtered_comp(self, e, st, frame):
+        """[elt for x in X if cond] as the loop it abbreviates: per iteration a decision on cond and, when it holds, an
+        `append` event with the element; the value stays the (substituted) comprehension."""
+        f = frame[0]
+        gen = e.generators[0]
+        loop = self._synth_loops.get(id(e))
+        if loop is None:
+            loop = ast.For(target=gen.target, iter=gen.iter, body=[], orelse=[])
+            loop.lineno = getattr(e, 'lineno', 0)
+            loop.col_offset = getattr(e, 'col_offset', 0)
+            loop._parent = getattr(e, '_parent', None)
+            self._synth_loops[id(e)] = loop
+        out = []
+        key = (frame[1], gen.target.id)
+        for itsym, s0, sig in self.ev(gen.iter, st, frame):
+            if sig is not None:
+                out.append((None, s0, sig))
+                continue
+            base_loops = s0.loops
+            saved = s0.env.get(key)
+            sym = self.subst(e, s0, frame)
+            pending = [(s0, 0)]
+            while pending:
+                s, k = pending.pop()
+                s_exit = s.fork()
+                s_exit.loops = base_loops
+                if saved is None:
+                    s_exit.env.pop(key, None)
+                else:
+                    s_exit.env[key] = saved
+                s_exit.events.append(Event('loop-exit', loop, f, text='for-exit', extra=k, ep=s_exit.ep, loops=base_loops))
+                out.append((sym, s_exit, None))
+                if k >= self.unroll:
+                    continue
+                s.loops = base_loops + ((id(loop), k),)
+                elem = ast.Name(id='<elem%d of %s>' % (k, norm(itsym)), ctx=ast.Load())
+                s.env[key] = elem
+                s.events.append(Event('loop-iter', loop, f, text='for-iter', extra=k, value=itsym, ep=s.ep, loops=s.loops))
+                cur = [s]
+                for cnd in gen.ifs:
+                    nxt = []
+                    for sx in cur:
+                        for v, s2, sg in self.cond(cnd, sx, frame):
+                            if sg is not None:
+                                out.append((None, s2, sg))
+                            elif v:
+                                nxt.append(s2)
+                            else:
+                                pending.append((s2, k + 1))
+                    cur = nxt
+                for sx in cur:
+                    for esym, s2, sg in self.ev(e.elt, sx, frame):
+                        if sg is not None:
+                            out.append((None, s2, sg))
+                            continue
+                        s2.events.append(Event('call', e, f, text='<listcomp>.append(%s)' % norm(esym), ftext='<listcomp>.append', args=[esym], recv=sym,
+                                               ep=s2.ep, loops=s2.loops, extra='comprehension-element'))
+                        pending.append((s2, k + 1))
+        return out
+
     def _cond_any_all(self, e, st, frame, is_any):
         """any(P(x) for x in X) / all(...) as the loop it abbreviates (same events as a for loop with an early exit)."""
         f = frame[0]
@@ -1488,3 +1557,16 @@ def eval_bool_sym(sym, facts):
     if (t + ' is None') in facts and facts[t + ' is None'] is True:
         return False
     return None
+
+
+def deep_norm(sym):
+    """Normalised text in which locals that hold a fresh container display are replaced by that display."""
+    import copy
+
+    class T(ast.NodeTransformer):
+        def visit_Name(self, x):
+            o = getattr(x, '_origin', None)
+            return self.visit(copy.deepcopy(o)) if o is not None else x
+    if sym is None:
+        return 'None'
+    return norm(T().visit(copy.deepcopy(sym)))
